@@ -7,7 +7,7 @@ from bip_utils import (Bip32KholawEd25519, CardanoIcarusBip32, CardanoByronLegac
                        Bip44Changes, CardanoByronLegacySeedGenerator, CardanoIcarusSeedGenerator, Bip39MnemonicEncoder, AdaShelleyAddrDecoder,
                        AdaShelleyStakingAddrDecoder, AdaShelleyAddrNetworkTags)
 
-LEAN_MODULES = ["BipVerif.Props.C18"]
+LEAN_MODULES = ["BipVerif.Props.C18", "BipVerif.Props.C04Group"]
 KH = {"kholaw": Bip32KholawEd25519, "icarus": CardanoIcarusBip32, "byronlegacy": CardanoByronLegacyBip32}
 
 
@@ -182,6 +182,12 @@ def gen(rng, tier):
         yield Case("adaseed", ["icarus", hx(e)], "seed")
 
 
+def _chain(m, elems):
+    for e in elems:
+        m = m.ChildKey(e)
+    return m
+
+
 def relations(rng, tier, rpt):
     """master keys carry the mandated clamped bits; children keep the extended-key invariants — implementation only."""
     bad = []
@@ -245,5 +251,65 @@ def relations(rng, tier, rpt):
                 break
         if full.PublicKey().ToAddress() != AdaByronIcarusAddrEncoder.EncodeKey(pub, chain_code=full.PublicKey().ChainCode().ToBytes()):
             rep("Bip44[%s] from-seed address changes after other objects with the same public key were used" % coin.name, seed.hex(), full.PublicKey().ToAddress(), "encoder on (key, own chain code)")
+    # argument forms. The two Byron-legacy indexes are documented as `int or Bip32KeyIndex`, "automatically hardened if not": a plain integer,
+    # an already hardened integer, a Bip32KeyIndex object and a hardened Bip32KeyIndex object (in every mix of the two positions) all name the
+    # same child m/first'/second'. Each form is asked on a fresh wallet; the keys are the hardened children of the master key taken one step
+    # at a time (the route the model is diffed on), the address is the one of the integer form (diffed against the model by `byronaddr`), and
+    # the path recovered from the address is made of the hardened indexes; the address decodes (its CRC verifies)
+    from bip_utils import Bip32KeyIndex, Bip32Path, AdaByronAddrDecoder
+    H = Bip32KeyIndex.HardenIndex
+
+    def index_forms(v):
+        return [("int", v), ("hardened int", H(v)), ("Bip32KeyIndex", Bip32KeyIndex(v)), ("hardened Bip32KeyIndex", Bip32KeyIndex(H(v)))]
+    for i in range(3 if tier == "quick" else 60):
+        seed = bytes(rng.randrange(256) for _ in range(32))
+        f, s_ = ((0, 1), (2**31 - 1, 0))[i] if i < 2 else (rng.choice([0, 1, 5, rng.getrandbits(31)]), rng.choice([0, 1, 2**31 - 1, rng.getrandbits(31)]))
+        ref = CardanoByronLegacyBip32.FromSeed(seed).ChildKey(H(f)).ChildKey(H(s_))
+        base = CardanoByronLegacy.FromSeed(seed)
+        want_addr = base.GetAddress(f, s_)
+        want = "%s %s %s" % (ref.PrivateKey().Raw().ToHex(), ref.PublicKey().RawCompressed().ToHex(), want_addr)
+        combos = [(a, b) for a in index_forms(f) for b in index_forms(s_)]
+        if tier == "quick" and i >= 2:
+            combos = rng.sample(combos, 6)
+        for (na, a), (nb, b) in combos:
+            n += 1
+            w = CardanoByronLegacy.FromSeed(seed)
+            where = "%s first=%d given as %s, second=%d given as %s" % (seed.hex(), f, na, s_, nb)
+            try:
+                got = obs(w, a, b)
+                addr = w.GetAddress(a, b)
+                rec = w.HdPathFromAddress(addr).ToList()
+                AdaByronAddrDecoder.DecodeAddr(addr)
+            except Exception as ex:  # noqa
+                rep("CardanoByronLegacy: an index given in a documented form (int / hardened int / Bip32KeyIndex object) is refused", where, type(ex).__name__, want)
+                continue
+            if got != want:
+                rep("CardanoByronLegacy: keys/address are not those of m/first'/second' when an index is given as an object or already hardened "
+                    "(every documented form of an index is hardened)", where, got, want)
+            elif rec != [H(f), H(s_)]:
+                rep("CardanoByronLegacy: the path recovered from the address is not [first', second'] for this form of the indexes", where, str(rec), str([H(f), H(s_)]))
+    # the same for the three BIP32-Ed25519 classes: a child asked by integer, by index object, through DerivePath(text) and through
+    # DerivePath(path object) is one and the same node
+    for i in range(6 if tier == "quick" else 150):
+        kind = list(KH)[i % 3]
+        seed = bytes(rng.randrange(256) for _ in range(32))
+        elems = [rand_index(rng) for _ in range(rng.randrange(1, 4))]
+        text = "m/" + "/".join("%d'" % (e - 2**31) if e >= 2**31 else "%d" % e for e in elems)
+        routes = {"ChildKey(int) chain": lambda m: _chain(m, elems), "ChildKey(Bip32KeyIndex) chain": lambda m: _chain(m, [Bip32KeyIndex(e) for e in elems]),
+                  "DerivePath(str)": lambda m: m.DerivePath(text), "DerivePath(Bip32Path of ints)": lambda m: m.DerivePath(Bip32Path(list(elems), True)),
+                  "DerivePath(Bip32Path of index objects)": lambda m: m.DerivePath(Bip32Path([Bip32KeyIndex(e) for e in elems], True))}
+        outs = {}
+        for name, route in routes.items():
+            n += 1
+            try:
+                outs[name] = node_out(route(KH[kind].FromSeed(seed)))
+            except Exception as ex:  # noqa
+                outs[name] = "!" + exc_kind(ex)
+        if len(set(outs.values())) != 1:
+            rep("%s: the same path gives different nodes depending on the form it is given in" % KH[kind].__name__, "%s %s" % (seed.hex(), text),
+                "; ".join("%s -> %s" % (k, v[:48]) for k, v in outs.items()), "one node")
     rpt.extra["impl_relation_checks"] = n
+    from harness.props.accessors_common import cardano_wrappers
+    for what, inp, got, want in cardano_wrappers(rng):
+        rep(what, inp, got, want)
     return bad[:6]
